@@ -8,7 +8,7 @@ transaction that contained an eager cache mutation, and after one committed tran
 (nextAddresses followed by extendAddresses on the same branch). Each is a proved counter-example below and a
 Go-side oracle key.
 -/
-import BtcwVerif.Lemmas.AddrLock
+import BtcwVerif.Lemmas.AddrCoherent
 namespace AddrLock
 
 /-- answer of query `q` on the running manager / on a manager freshly opened on the same database -/
@@ -23,6 +23,20 @@ theorem C08_disk_queries_eq_reopen (d : Disk) (m : Mem) (q : Query)
     (hq : (∃ sc n, q = .lookup sc n) ∨ (∃ sc a, q = .acctName sc a) ∨ (∃ h, q = .blockHash h)) :
     (query d m q).2 = (query d (openMem d) q).2 := by
   rcases hq with ⟨sc, n, rfl⟩ | ⟨sc, a, rfl⟩ | ⟨h, rfl⟩ <;> simp only [query] <;> split <;> rfl
+
+/-! ## 1b. coherent caches answer EVERY query of the property exactly as a freshly opened manager -/
+
+/-- `Coherent d m` (Lemmas/AddrCoherent.lean): every cached account info agrees with its account row (name, next
+indices, last addresses), every cached address is what the database would load for that key, the sync state equals
+the stored one, and the manager never needs a private key the database lacks.  Then Address, AccountProperties,
+Last{External,Internal}Address, LookupAccount, AccountName, Used, SyncedTo and BlockHash all answer as on a manager
+freshly opened on the same database (whose answers are the database-only function `qAns`). -/
+theorem C08_query_eq_of_coherent (d : Disk) (m : Mem) (h : Coherent d m) (q : Query) :
+    (query d m q).2 = (query d (openMem d) q).2 := by
+  rw [query_ans h q, query_ans (coherent_open d) q]
+
+/-- non-vacuity / the restart itself: a freshly opened manager is coherent -/
+theorem C08_reopen_coherent (d : Disk) : Coherent d (openMem d) := coherent_open d
 
 /-! ## 2. a rolled-back (or failed-commit) transaction leaves the database exactly as it was -/
 
